@@ -126,8 +126,14 @@ def _stream(ctx, data, plan, mode, validate, pseed, backend, bparam):
     params = {"kind": "stream", "data": data.hex(), "plan": {str(k): v for k, v in plan.items()}, "mode": mode,
               "validate": validate, "pseed": pseed, "backend": backend, "bparam": bparam}
     sock = None
+    feeder = None
     if backend == "file":
-        stream = doubles.RecordingStream(data, plan, rng=random.Random(pseed), budget=budget)
+        cls = doubles.SeekableRecordingStream if pseed % 3 == 0 else doubles.RecordingStream
+        stream = cls(data, plan, rng=random.Random(pseed), budget=2 * budget)
+    elif backend in ("pipe", "makefile"):
+        inner, feeder = (doubles.pipe_file if backend == "pipe" else doubles.makefile_stream)(data)
+        stream = doubles.CountingStream(inner, budget)
+        stream.exhausted = False
     else:
         sock = doubles.ScriptedSocket(data, bparam.get("sizes", ()), budget=budget)
         stream = sock
@@ -164,6 +170,8 @@ def _stream(ctx, data, plan, mode, validate, pseed, backend, bparam):
                     ctx.violation("iterator-raised",
                                   f"mode {mode} iterator raised {type(e).__name__}: {e}", params)
                     return
+                if backend in ("pipe", "makefile"):
+                    break
                 done = stream.exhausted if backend == "file" else (sock._vpos >= len(data) and not sock._sched[sock._si:])
                 if done or rounds > len(plan) + len(bparam.get("sizes", ())) + 4:
                     break
@@ -185,6 +193,8 @@ def _stream(ctx, data, plan, mode, validate, pseed, backend, bparam):
                     ctx.violation("foreign-exception-reader", f"read() raised {type(e).__name__}: {e}", params)
                     return
                 if raw is None and parsed is None:
+                    if backend in ("pipe", "makefile"):
+                        break
                     done = stream.exhausted if backend == "file" else (
                         sock._vpos >= len(data) and not sock._sched[sock._si:])
                     idle += 1
@@ -193,6 +203,13 @@ def _stream(ctx, data, plan, mode, validate, pseed, backend, bparam):
     finally:
         if sock is not None:
             sock.close()
+        if feeder is not None:
+            try:
+                inner.close()
+            except OSError:
+                pass
+            feeder.join(5)
+    ctx.hit("stream_backend:" + backend)
     ctx.case(b"stream" + data + repr((sorted(plan.items()), mode, validate, backend, bparam)).encode(), True)
     ctx.sample({"entry": "stream", "backend": backend, "mode": mode, "validate": validate, "len": len(data),
                 "faults": len(plan), "head_hex": data[:32].hex()}, limit=1)
@@ -298,6 +315,8 @@ def run(ctx):
             _stream(ctx, data, {}, mode, validate, 0, "socket",
                     {"sizes": sizes, "bufsize": rng.choice((1, 3, 64, 4096)), "encoding": enc_opt,
                      "labelmsm": rng.choice((1, 2))})
+        elif i % 16 == 5:
+            _stream(ctx, data, {}, mode, validate, 0, rng.choice(("pipe", "makefile")), {"labelmsm": 1})
         else:
             ncalls = max(1, c01.count_calls(data))
             plan = {rng.randrange(ncalls): rng.choice(("short", "short", "empty", "eof", "partial"))
